@@ -221,7 +221,8 @@ class RealFloat__round_at_stochastic(Contract):
     # abstracted to an uninterpreted function of the mode (the extended-precision call rnd_at(self, None, n-k, rm)
     # stays transparent)
     options = {'call_counts': {'RealFloat._generate_randbits': 1}, 'bounded_fallback': 12, 'bounded_ms': 60000,
-               'split_heavy': True, 'opaque': {'rnd_at': [['self', 'p', 'n'], 'tuple[int, int, bool, bool]']}}
+               'split_heavy': True, 'opaque': {'rnd_at': [['self', 'p', 'n'], 'tuple[int, int, bool, bool]']},
+               'symbolic_tier': 'thorough'}
 
     def pre(self, p, n, emin, rm, num_randbits, rng, exact):
         return {
@@ -264,6 +265,35 @@ class RealFloat__round_at_stochastic(Contract):
     def raises(self, p, n, emin, rm, num_randbits, rng, exact):
         return {}
 
+    native_bound_note = ('thorough: all operands c < 48, exp in [-3, 3], positions n in [-2, 3], k in {None, 0, 1, 2, 3} with '
+                         'every one of the 2^k draws, p in {None, 2, 3, 5} (emin = p + n or None), both signs, all 8 modes; '
+                         'quick: c < 20, k <= 2 (all-bits k <= 3)')
+
+    @staticmethod
+    def native_grid():
+        """bounded stand-in: exhaustive native enumeration (labelled bounded, never counted as proved)"""
+        import replay
+        from fpy2.number.number.reals import RealFloat
+        from fpy2.number.round import RoundingMode as RM
+        import os
+        quick = os.environ.get('VERIF_TIER', 'quick') != 'thorough'
+        for rm in RM:
+            for s in (False, True):
+                for c in range(0, 20 if quick else 48):
+                    for exp in range(-3, 4):
+                        x = RealFloat(s, exp, c)
+                        for n in range(-2, 4):
+                            for p in (None, 2, 3, 5):
+                                emin = None if p is None else p + n
+                                for k in ((None, 0, 1, 2) if quick else (None, 0, 1, 2, 3)):
+                                    kk = max(0, n + 1 - exp) if k is None else k
+                                    if kk > (3 if quick else 4):
+                                        continue
+                                    for d in range(1 << kk):
+                                        fn = (lambda dd: (lambda kq: dd))(d)
+                                        yield ({'self': x, 'p': p, 'n': n, 'emin': emin, 'rm': rm, 'num_randbits': k,
+                                                'rng': replay.ScriptedRandom(fn), 'exact': False}, {'draw': fn})
+
 
 class RealFloat_round(Contract):
     target = 'fpy2.number.number.reals:RealFloat.round'
@@ -271,6 +301,7 @@ class RealFloat_round(Contract):
               'num_randbits': 'int | None', 'rng': 'RNG | None', 'exact': 'bool'}
     returns = 'RealFloat'
     properties = ['C01', 'C17']
+    split = ['rm']
 
     def pre(self, max_p, min_n, rm, num_randbits, rng, exact):
         return {
